@@ -70,6 +70,11 @@ def supported : Geom F → Bool
   | .point _ | .multiPoint _ | .lineString _ | .multiLineString _ | .polygon _ | .multiPolygon _ => true
   | _ => false
 
+/-- the nil interface value: no geometry type at all (outside the property; `Encode(nil)` panics) -/
+def isNil : Geom F → Bool
+  | .nil => true
+  | _ => false
+
 /-- "at least one vertex in its first member" -/
 def firstMemberNonEmpty : Geom F → Bool
   | .multiPoint ps | .lineString ps => !ps.isEmpty
